@@ -1,7 +1,9 @@
 import PyxisVerif.Props.C01
+import PyxisVerif.Props.CaseLift
 #print axioms PyxisVerif.C01.placed_at_spec
 #print axioms PyxisVerif.C01.rustc_offsets
 #print axioms PyxisVerif.C01.emitted_fields
 #print axioms PyxisVerif.C01.buildType_layout
 #print axioms PyxisVerif.C01.nameRegions_types
 #print axioms PyxisVerif.C01.field_offsets_exact
+#print axioms PyxisVerif.C01.case_field_offsets_exact
